@@ -33,7 +33,12 @@ func runReader(sc *Scenario, out *Out) {
 	ctx, cancel := context.WithCancel(context.Background())
 	defer cancel()
 	r := w.t.NewReader(ctx, sc.Offset, sc.Length)
-	defer r.Close()
+	rclosed := false
+	defer func() {
+		if !rclosed {
+			r.Close()
+		}
+	}()
 	pos := int64(0)
 	dead, cancelled := false, false
 	reads, blocked := 0, 0
@@ -207,6 +212,23 @@ func runReader(sc *Scenario, out *Out) {
 		out.Applied++
 		if len(out.Violations) > 0 || out.Note != "" {
 			return
+		}
+	}
+	// C10: when the reader closes, every priority it registered is withdrawn
+	if !dead {
+		r.Close()
+		rclosed = true
+		w.pushGates()
+		if w.park() {
+			prio, _ := w.t.VerifRequested()
+			left := 0
+			for _, ps := range prio {
+				left += len(ps)
+			}
+			if left > 0 {
+				w.viol("C10", "reader-priority-leak", fmt.Sprintf("after the only reader was closed (last position %d, piece %d) %d priorities remain registered: %v", pos, (sc.Offset+pos)/int64(w.psize), left, prio))
+			}
+			w.releaseAll()
 		}
 	}
 	out.Stats = map[string]int{"reads": reads, "seed_rounds": blocked}
